@@ -69,6 +69,34 @@ Fixpoint cp_dbu_from (pre q : list wop) : bool :=
   match q with [] => true | o :: r => cp_dbu_at pre o && cp_dbu_from (pre ++ [o]) r end.
 Definition cp_dbu (q : list wop) : bool := cp_dbu_from [] q.
 
+(* ---- acceptance of a call as a check against the calls accepted before it
+        (theorem cp_step: wstep (cp_denote pre) o = (cp_denote (pre ++ [o]), true) exactly when cp_wf_at pre o) ---- *)
+Definition cp_find_def (pre : list wop) (i : N) : option sigdef := find (fun d => sg_id d =? i) (cp_defs pre).
+Definition cp_is_fsr (pre : list wop) (i : N) : bool :=
+  match cp_find_def pre i with Some d => sg_type d =? JLS_SIGNAL_TYPE_FSR | None => false end.
+Definition cp_wf_at (pre : list wop) (o : wop) : bool :=
+  match o with
+  | WSrc d =>
+    (so_id d <? JLS_SOURCE_COUNT) && negb (cp_mem (so_id d) (0 :: map so_id (cp_srcs pre)))
+    && str_fits (so_name d) && str_fits (so_vendor d) && str_fits (so_model d) && str_fits (so_version d) && str_fits (so_serial d)
+  | WSig d =>
+    (sg_id d <? JLS_SIGNAL_COUNT) && (sg_src d <? JLS_SOURCE_COUNT)
+    && cp_mem (sg_src d) (0 :: map so_id (cp_srcs pre))
+    && negb (cp_mem (sg_id d) (0 :: map sg_id (cp_sigs pre)))
+    && ((sg_type d =? JLS_SIGNAL_TYPE_FSR) || (sg_type d =? JLS_SIGNAL_TYPE_VSR))
+    && dt_valid (sg_dtype d)
+    && ((sg_type d =? JLS_SIGNAL_TYPE_VSR) || negb (sg_rate d =? 0))
+    && str_fits (sg_name d) && str_fits (sg_units d)
+  | WFsr i _ _ | WOmit i _ | WUtc i _ _ => cp_is_fsr pre i
+  | WAnno i a =>
+    match cp_find_def pre i with Some _ => stype_ok_anno (an_stype a) && (an_type a <? 256) | None => false end
+  | WUd u => stype_ok_ud (ud_stype u)
+  | WFlush => true
+  end.
+Fixpoint cp_wf_from (pre q : list wop) : bool :=
+  match q with [] => true | o :: r => cp_wf_at pre o && cp_wf_from (pre ++ [o]) r end.
+Definition cp_wf (q : list wop) : bool := cp_wf_from [] q.          (* theorem: cp_ok q <-> cp_wf q = true *)
+
 (* ---- what the reader can see ---- *)
 (* a definition string reads back as its bytes: a NULL argument and an empty string are the same to a reader *)
 Definition cp_norm_str (s : strv) : strv := SBytes (str_read s).
@@ -92,6 +120,7 @@ Definition cp_o_samples (o : cp_sigobs) : list N := let '(_, _, _, x, _, _) := o
 Definition cp_o_annos (o : cp_sigobs) : list anno := let '(_, _, _, _, x, _) := o in x.
 Definition cp_o_utcs (o : cp_sigobs) : list (Z * Z) := let '(_, _, _, _, _, x) := o in x.
 Definition cp_o_length (o : cp_sigobs) : N := let '(_, _, n, _, _, _) := o in n.
+Definition cp_o_offset (o : cp_sigobs) : Z := let '(_, f, _, _, _, _) := o in f.
 Definition cp_o_window (o : cp_sigobs) (start count : N) : option (list N) :=
   if (start + count <=? cp_o_length o)
   then Some (pack (dt_bits (sg_dtype (cp_o_def o))) (firstn (N.to_nat count) (skipn (N.to_nat start) (cp_o_samples o))))
